@@ -139,8 +139,14 @@ func (p *Parser) Reset() {
 // currentLocation returns the source location of the current token.
 // Returns an empty location if position tracking is not enabled or position is out of bounds.
 func (p *Parser) currentLocation() models.Location {
-	if p.positions == nil || p.currentPos >= len(p.positions) {
+	if len(p.positions) == 0 {
 		return models.Location{}
+	}
+	if p.currentPos >= len(p.positions) {
+		// The cursor stands past the last token (a production stepped over the end of input
+		// before it failed): the error is located at the end of input, like every other error
+		// met there, instead of carrying no location at all.
+		return p.positions[len(p.positions)-1].Start
 	}
 	return p.positions[p.currentPos].Start
 }
